@@ -21,7 +21,7 @@ fn eval(space: &LayoutSpace, index: usize, ps: usize, want_text: bool) -> Outcom
     let n_attrs = Printer::default().type_attrs(&case.ty).len();
     if n_attrs >= 2 {
         let mods = space.modules_for(&case.ty);
-        let rev = pipe::Input { modules: mods.iter().map(|m| (m.path.clone(), Printer { style: NumStyle::Dec, reverse_type_attrs: true, docs_after_attrs: false }.module(m))).collect() };
+        let rev = pipe::Input { modules: mods.iter().map(|m| (m.path.clone(), Printer { style: NumStyle::Dec, reverse_type_attrs: true, docs_after_attrs: false, attr_order: 0 }.module(m))).collect() };
         let v2 = pipe::run_with(&rev, ps, false);
         if v2.is_ok() != v.is_ok() {
             return Outcome {
